@@ -1,0 +1,30 @@
+//go:build verif
+
+// Contracts for the deductive verifier in /verif (comment-only file; see /verif/DESIGN.md).
+package metadata
+
+//@ property C04 C12 C19
+
+// Wire layout per version, from the Kafka protocol definition of this API (field order, types and the versions each field
+// exists in); the encoders and decoders are compiled from the struct tags, so the tags are checked against it.
+//@ wire Request
+//@   layout v0..v3 TopicNames []string?
+//@   layout v4..v7 TopicNames []string?, AllowAutoTopicCreation bool
+//@   layout v8 TopicNames []string?, AllowAutoTopicCreation bool, IncludeClusterAuthorizedOperations bool, IncludeTopicAuthorizedOperations bool
+//@ wire Response
+//@   layout v0 Brokers []ResponseBroker, Topics []ResponseTopic
+//@   layout v1 Brokers []ResponseBroker, ControllerID int32, Topics []ResponseTopic
+//@   layout v2 Brokers []ResponseBroker, ClusterID string?, ControllerID int32, Topics []ResponseTopic
+//@   layout v3..v7 ThrottleTimeMs int32, Brokers []ResponseBroker, ClusterID string?, ControllerID int32, Topics []ResponseTopic
+//@   layout v8 ThrottleTimeMs int32, Brokers []ResponseBroker, ClusterID string?, ControllerID int32, Topics []ResponseTopic, ClusterAuthorizedOperations int32
+//@ wire ResponseBroker
+//@   layout v0 NodeID int32, Host string, Port int32
+//@   layout v1..v8 NodeID int32, Host string, Port int32, Rack string?
+//@ wire ResponseTopic
+//@   layout v0 ErrorCode int16, Name string, Partitions []ResponsePartition
+//@   layout v1..v7 ErrorCode int16, Name string, IsInternal bool, Partitions []ResponsePartition
+//@   layout v8 ErrorCode int16, Name string, IsInternal bool, Partitions []ResponsePartition, TopicAuthorizedOperations int32
+//@ wire ResponsePartition
+//@   layout v0..v4 ErrorCode int16, PartitionIndex int32, LeaderID int32, ReplicaNodes []int32, IsrNodes []int32
+//@   layout v5..v6 ErrorCode int16, PartitionIndex int32, LeaderID int32, ReplicaNodes []int32, IsrNodes []int32, OfflineReplicas []int32
+//@   layout v7..v8 ErrorCode int16, PartitionIndex int32, LeaderID int32, LeaderEpoch int32, ReplicaNodes []int32, IsrNodes []int32, OfflineReplicas []int32
